@@ -644,3 +644,11 @@ Example ex_file_names :
   file_names (str "target/out") (str "String") [str "INITIAL"; str "STRING"]
   = [str "target/out/String_INITIAL.dot"; str "target/out/String_STRING.dot"].
 Proof. vm_compute. reflexivity. Qed.
+
+(* node IDs: distinct (cluster prefix, state) pairs never share a node name — a Graphviz node is identified by its
+   ID in the whole file, so this is what keeps the states of different lookahead automata apart *)
+Lemma name_chars_inj p id p' id' : name_chars p id = name_chars p' id' -> p = p' /\ id = id'.
+Proof.
+  intros H. pose proof (parse_name_ok p id []) as H1. pose proof (parse_name_ok p' id' []) as H2.
+  rewrite H in H1. rewrite H1 in H2. inversion H2; auto.
+Qed.
